@@ -43,6 +43,7 @@ def strategy(tier):
         st.tuples(st.just('delete'), i), st.tuples(st.just('delete_unknown'), i),
         st.tuples(st.just('start_worker'), i), st.tuples(st.just('start_worker'), i), st.tuples(st.just('start_worker'), i, st.sampled_from([2, 3])),
         st.tuples(st.just('start_worker_unknown'), i),
+        st.tuples(st.just('start_worker_unloadable'), i),   # a request the context's helper cannot even rebuild (worker class from a module only the client has)
         st.tuples(st.just('block_workers'), i),      # every live worker of the context gets stuck in a C call: deleting the context then takes seconds
         st.tuples(st.just('delete_with_4_blocked_workers'), i),
         st.tuples(st.just('enqueue'), st.integers(0, 5), st.integers(0, 99)), st.tuples(st.just('enqueue'), st.integers(0, 5), st.integers(0, 99), st.sampled_from([4, 7])),
@@ -50,6 +51,22 @@ def strategy(tier):
         st.tuples(st.just('enqueue'), st.integers(0, 5), st.integers(0, 99)), st.tuples(st.just('wait'), st.integers(0, 5)))
     first = st.tuples(st.just('create'), st.just(1), st.sampled_from(['t1', 't2']), st.sampled_from([None, 5, 'P8']))
     return st.fixed_dictionaries({'ops': st.builds(lambda f, rest: [list(f)] + [list(r) for r in rest], first, st.lists(op, min_size=1, max_size=9))})
+
+
+def _client_only_class():
+    """a PersistentRemoteWorker subclass pickled by reference to a module that exists in this process only"""
+    import sys
+    import types
+    from pyworkers.persistent_remote import PersistentRemoteWorker
+    mod = sys.modules.get('verif_c18_client_only_module')
+    if mod is None:
+        mod = types.ModuleType('verif_c18_client_only_module')
+        sys.modules[mod.__name__] = mod
+        cls = type('ClientOnlyWorker', (PersistentRemoteWorker,), {})
+        cls.__module__ = mod.__name__
+        cls.__qualname__ = 'ClientOnlyWorker'
+        mod.ClientOnlyWorker = cls
+    return mod.ClientOnlyWorker
 
 
 def _raw_delete(addr, ctx_id):
@@ -171,6 +188,36 @@ def run_case(case, ctx):
                         broke = True
                     except BaseException as e:
                         log.append(['start_worker_unknown', type(e).__name__])
+                elif what == 'start_worker_unloadable':
+                    # a faulty "start worker in context i" request must cost that one request only: the context stays registered, its workers
+                    # stay alive and keep executing its target, new workers can still be started in it (round-4 seed C18-m7)
+                    i = op[1]
+                    if i not in model:
+                        continue
+                    out.nontrivial = True
+                    try:
+                        w = bounded(_client_only_class(), 25, None, context=i, host=srv.addr)
+                        log.append(['start_worker_unloadable', 'returned'])
+                        workers.append({'w': w, 'id': i, 't': None, 'k': None, 'alive': False})
+                    except Blocked:
+                        out.viol('constructor_blocked_on_unloadable_worker_class', what, '')
+                        broke = True
+                    except (NameError, AttributeError, ImportError):
+                        raise
+                    except BaseException as e:
+                        log.append(['start_worker_unloadable', type(e).__name__])
+                    if not broke:
+                        for rec in model[i]['workers']:
+                            if rec['alive'] and not rec.get('blocked') and rec['k'] != 'P8':
+                                v = bounded(rec['w'].call, 25, 41)
+                                exp = TARGETS[rec['t']](41, **({'k': rec['k']} if rec['k'] is not None else {}))
+                                if v != exp:
+                                    out.viol('context_worker_wrong_result', what, f'after a faulty request in context {i}: call(41) -> {v!r}, expected {exp!r}')
+                        w2 = bounded(PersistentRemoteWorker, 25, None, context=i, host=srv.addr)
+                        rec = {'w': w2, 'id': i, 't': model[i]['t'], 'k': model[i]['k'], 'alive': True}
+                        model[i]['workers'].append(rec)
+                        workers.append(rec)
+                        out.label('context_usable_after_faulty_request')
                 elif what == 'block_workers':
                     i = op[1]
                     if i not in model:
@@ -231,7 +278,7 @@ def run_case(case, ctx):
                 out.viol('operation_raised:' + type(e).__name__, site, f'{op}: {e!r}'[:250])
             log.append(op)
             out.label('op:' + what)
-            if what in ('create_duplicate', 'delete_unknown', 'start_worker_unknown') or broke:
+            if what in ('create_duplicate', 'delete_unknown', 'start_worker_unknown', 'start_worker_unloadable') or broke:
                 if not IC.server_healthy(ctx, limit=20):
                     out.viol('server_unhealthy', what, f'server does not serve a fresh worker after {op}')
                     broke = True
